@@ -96,6 +96,9 @@ def routines_to_json(routine_infos, named_coroutines, routine_ops) -> dict:
                 names[i] = c
     out = []
     for i, (info, ops) in enumerate(zip(routine_infos, routine_ops)):
+        if info is None:  # a gap in the routine ids leaves holes in the compiler's tables
+            out.append({"type": "<missing>", "linked_to": None, "linked_to_name": None, "coro": None, "ops": []})
+            continue
         out.append(
             {
                 "type": info.type.name,
